@@ -15,6 +15,9 @@ Inductive case :=
 | CPersist (gc : bool) (ntx : list N) (ops : list op) (obs : list obatch) (recov : list rres)
 | CReset (keep init : bool) (ntx : list N) (c hh h : N) (p : bool) (obs : list obatch) (recov : list rres)
 | CJump (jor : bool) (p top mtb : N) (obs : list obatch) (recov : list rres)
+| CStorageSync (race : bool) (obs : list (bool * bool * bool)) (recov : list rres)
+      (* contract-storage-based synchronisation: per batch (carries a checkpoint?, contract storage items?, trie
+         nodes?); outcome of re-opening + resuming every prefix *)
 | CLongGC (ps gcp mtb : N) (fl : list (N * bool)) (obs : list (list (N * N) * list (N * N)))
           (kinds : list N) (recov : list rres).
       (* long chain: per flush (persisted height, with GC?) - which block records the flushed batch deletes and
@@ -282,10 +285,23 @@ Definition check_long ps gcp mtb fl obs kinds (recov : list rres) : N :=
     list_eqb rres_eqb recov (ROk 0 0 :: long_recov ps kinds fl plan 0 [] None) in
   code_of (agree false || agree true) (forallb (fun r => match r with ROk _ _ => true | _ => false end) recov).
 
+(* ---- contract-storage-based synchronisation ---- *)
+(* mechanism: from the first checkpoint on, temporary storage items never travel without the checkpoint of their
+   batch; specification: every prefix resumes to a node that is up *)
+Fixpoint ss_atomic (seen : bool) (obs : list (bool * bool * bool)) : bool :=
+  match obs with
+  | [] => true
+  | (ck, items, _) :: t => (negb seen || negb items || ck) && ss_atomic (seen || ck) t
+  end.
+Definition check_storage_sync (obs : list (bool * bool * bool)) (recov : list rres) : N :=
+  let m := ss_atomic false obs in
+  code_of m (m && forallb (fun r => match r with ROk _ _ => true | _ => false end) recov).
+
 Definition check_case (c : case) : N :=
   match c with
   | CPersist gc ntx ops obs recov => check_persist gc ntx ops obs recov
   | CReset keep init ntx c hh h p obs recov => check_reset keep init ntx c hh h p obs recov
   | CJump jor p top mtb obs recov => check_jump jor p top mtb obs recov
   | CLongGC ps gcp mtb fl obs kinds recov => check_long ps gcp mtb fl obs kinds recov
+  | CStorageSync _ obs recov => check_storage_sync obs recov
   end.
